@@ -3483,11 +3483,17 @@ public:
     {
         // can't use `detail::set_value()` here because its size check checks
         // only `sizeof(T)`, here we need `sizeof(size_type) + count`
+        // two steps because `sizeof(size_type) + count` can wrap around
         SBEPP_SIZE_CHECK(
             (*this)(addressof_tag{}),
             (*this)(end_ptr_tag{}),
             0,
-            sizeof(size_type) + count);
+            sizeof(size_type));
+        SBEPP_SIZE_CHECK(
+            (*this)(addressof_tag{}) + sizeof(size_type),
+            (*this)(end_ptr_tag{}),
+            0,
+            static_cast<std::size_t>(count));
         set_primitive<E>((*this)(addressof_tag{}), count);
     }
 
@@ -3673,11 +3679,17 @@ public:
 private:
     SBEPP_CPP14_CONSTEXPR pointer data_checked() const noexcept
     {
+        // two steps because `sizeof(size_type) + size()` can wrap around
         SBEPP_SIZE_CHECK(
             (*this)(detail::addressof_tag{}),
             (*this)(detail::end_ptr_tag{}),
             0,
-            sizeof(size_type) + size());
+            sizeof(size_type));
+        SBEPP_SIZE_CHECK(
+            (*this)(detail::addressof_tag{}) + sizeof(size_type),
+            (*this)(detail::end_ptr_tag{}),
+            0,
+            static_cast<std::size_t>(size()));
         return data_unchecked();
     }
 
